@@ -98,11 +98,16 @@ struct Ctx {
   uint64_t features = 0;
   std::map<std::string, uint64_t> counters;
   bool want_trace = false;
+  bool check_code = false;   // C05: compare the session's parity-check matrix with the reference (white-box probe)
+  uint32_t cycle_limit_n = 100000;  // configurations with more symbols are configured and released only
   uint64_t api_calls = 0;
   uint64_t skipped_steps = 0;
   bool leak_overflow = false;
+  std::set<std::string> known_sigs;  // open known findings: excluded by construction, counted
+  bool hit_known = false;
   void fail(uint32_t oracle, const std::string& sig, const std::string& msg) {
     Fail f{oracle, std::string(oracle_prop(oracle)) + "/" + oracle_name(oracle) + "/" + sig, msg};
+    if (known_sigs.count(f.sig)) { counters["excluded_by_known_finding:" + f.sig]++; hit_known = true; return; }
     if (oracle & enabled) { fails.push_back(f); stop = true; }
     else if (notes.size() < 8) notes.push_back(f);
   }
@@ -132,6 +137,21 @@ inline int cfg_valid(const Config& c, uint32_t ldpc_max_k = 50000, uint32_t ldpc
               c.seed >= 1 && c.seed <= 0x7FFFFFFEu) ? 1 : 0;
     default: return -1;
   }
+}
+
+inline std::string cfg_invalid_reason(const Config& c) {
+  uint64_t n = (uint64_t)c.k + c.r; uint32_t L = effective_L(c);
+  std::string cn = c.codec == CODEC_RS8 ? "RS8" : c.codec == CODEC_RSM ? "RSM" : c.codec == CODEC_LDPC ? "LDPC" : "P2D";
+  uint32_t lim = c.codec == CODEC_LDPC ? 50000 : (c.codec == CODEC_RSM && c.m == 4) ? 15 : 255;
+  if (c.codec == CODEC_RSM && c.m != 4 && c.m != 8) return cn + "/m";
+  if (c.k == 0) return cn + "/k=0";
+  if (c.r == 0) return cn + "/r=0";
+  if (L == 0) return cn + "/L=0";
+  if (c.k > lim) return cn + "/k>max";
+  if (n > lim) return cn + "/n>max";
+  if (c.codec == CODEC_LDPC && (c.N1 < 3 || c.N1 > c.r)) return cn + "/N1";
+  if (c.codec == CODEC_LDPC && (c.seed < 1 || c.seed > 0x7FFFFFFEu)) return cn + "/seed";
+  return cn + "/?";
 }
 
 // ---------------------------------------------------------------------------------------------
@@ -277,6 +297,14 @@ struct Sess {
     int st = f();
     return st;
   }
+  uint64_t cb_hash_this_call() const {
+    std::vector<uint64_t> v;
+    for (const CbRec& q : cblog) if (q.call == cur_call) v.push_back(((uint64_t)q.esi << 33) | ((uint64_t)q.size << 1) | (q.rep ? 1 : 0));
+    std::sort(v.begin(), v.end());
+    uint64_t h = v.size();
+    for (uint64_t x : v) h = mix2(h, x);
+    return h;
+  }
   void tr(const std::string& brief, uint64_t h) {
     if (cx.want_trace) trace.push_back(TraceEnt{mix2(h, hash_text(brief)), brief});
   }
@@ -372,11 +400,11 @@ struct Sess {
     if (expect == 1 && s != ST_OK)
       cx.fail(O_PARAM, "valid_config_rejected", "configuration inside the advertised limits rejected, status " + std::to_string(s));
     if (expect == 0 && s == ST_OK)
-      cx.fail(O_PARAM, "invalid_config_accepted", "configuration outside the advertised limits accepted");
+      cx.fail(O_PARAM, "invalid_config_accepted/" + cfg_invalid_reason(c), "configuration outside the advertised limits accepted");
     if (s != ST_OK) { rejected = true; cx.features |= F_REJECTED; return; }
     if (expect == 0) { rejected = true; return; }  // accepted although invalid: nothing more is promised; release only
     // feasibility of a full cycle
-    if ((uint64_t)(c.k + c.r) * (uint64_t)Leff > (64u << 20)) { rejected = true; return; }
+    if ((uint64_t)(c.k + c.r) * (uint64_t)Leff > (64u << 20) || (uint64_t)c.k + c.r > cx.cycle_limit_n) { rejected = true; cx.counters["accepted_config_only"]++; return; }
     cfg_ok = true;
     k = c.k; r = c.r; n = k + r; L = Leff;
     if (injected) code = injected;
@@ -399,7 +427,32 @@ struct Sess {
         if (is_dec_role()) make_known(n - 1, 0);
       }
       if (code->ldpc.extra_added || code->ldpc.uneven) cx.features |= F_EXTRA;
+      if (cx.check_code) probe_code();
     }
+  }
+
+  // white-box observation of the code actually held by the session (optional probe)
+  void probe_code() {
+    if (!shp_ldpc_available()) { cx.counters["probe_unavailable"]++; return; }
+    size_t want = 0;
+    for (auto& e : code->eqs) want += e.size();
+    std::vector<uint32_t> rows(want + 16), esis(want + 16);
+    long got = shp_session_pchk(ses, rows.data(), esis.data(), (long)rows.size());
+    if (got < 0) { cx.counters["probe_no_matrix"]++; return; }
+    cx.counters["probe_session_matrix"]++;
+    auto cmp = [&](long cnt, const char* what) {
+      if ((size_t)cnt != want) { cx.fail(O_CODE, std::string(what) + "_entry_count", std::string(what) + ": " + std::to_string(cnt) + " entries, RFC 5170 reference has " + std::to_string(want)); return; }
+      std::vector<std::set<uint32_t>> got_rows(r);
+      for (long i = 0; i < cnt; i++) { if (rows[i] >= r || esis[i] >= n) { cx.fail(O_CODE, std::string(what) + "_entry_out_of_range", "entry out of range"); return; } got_rows[rows[i]].insert(esis[i]); }
+      for (uint32_t i = 0; i < r; i++) {
+        std::set<uint32_t> w(code->eqs[i].begin(), code->eqs[i].end());
+        if (w != got_rows[i]) { cx.fail(O_CODE, std::string(what) + "_row_differs", std::string(what) + ": equation " + std::to_string(i) + " differs from the RFC 5170 reference"); return; }
+      }
+    };
+    cmp(got, "session_matrix");
+    int extra = 0;
+    long got2 = shp_ldpc_constructor(k, r, sc.cfg.N1, sc.cfg.seed, rows.data(), esis.data(), (long)rows.size(), &extra);
+    if (got2 >= 0) { cx.counters["probe_constructor"]++; cmp(got2, "constructor"); }
   }
 
   // encoder ------------------------------------------------------------------
@@ -438,6 +491,8 @@ struct Sess {
 #endif
     }
     enc_built[esi] = 1;
+    if (last_null == 1 && esi == n - 1)
+      for (uint32_t b = 0; b < L; b++) if (((uint8_t*)out)[b]) { cx.fail(O_LASTNULL, "encoder_last_symbol_nonzero", "IS_LAST_SYMBOL_NULL true but the encoder's last repair symbol is not all zero"); break; }
     check_app_memory("build", true);
     uint64_t hh = fnv1a(out, L);
     tr("build " + std::to_string(esi), hh);
@@ -488,7 +543,7 @@ struct Sess {
     if (s != ST_OK) cx.fail(O_STATUS, "decode_with_new_symbol_not_ok", "of_decode_with_new_symbol(esi=" + std::to_string(esi) + ") returned " + std::to_string(s));
     if (rs_triggers_decode) cx.features |= F_RS_DECODE;
     check_app_memory("new");
-    tr("new " + std::to_string(esi), (uint64_t)s);
+    tr("new " + std::to_string(esi), mix2((uint64_t)s, cb_hash_this_call()));
   }
 
   void step_avail(const Step& st) {
@@ -503,7 +558,7 @@ struct Sess {
     int s = call([&] { return sh_set_avail(ses, avail_tab); });
     if (s != ST_OK) cx.fail(O_STATUS, "set_available_symbols_not_ok", "of_set_available_symbols returned " + std::to_string(s));
     check_app_memory("avail");
-    tr("avail " + std::to_string(es.size()), (uint64_t)s);
+    tr("avail " + std::to_string(es.size()), mix2((uint64_t)s, cb_hash_this_call()));
   }
 
   void step_finish() {
@@ -534,9 +589,10 @@ struct Sess {
     }
     if (rs() && ndistinct >= k && ever_complete) cx.features |= F_FIN_COMPLETE;
     int s = call([&] { return sh_finish(ses); });
+    uint64_t fin_cb = cb_hash_this_call();
     check_app_memory("finish");
     int c = call([&] { return sh_is_complete(ses); });
-    tr("finish", (uint64_t)s * 2 + c);
+    tr("finish", mix2((uint64_t)s * 2 + c, fin_cb));
     if (s != ST_OK && s != ST_FAILURE)
       cx.fail(O_STATUS, "finish_returned_error", "of_finish_decoding returned " + std::to_string(s) + " (neither OK nor FAILURE)");
     else if (s == ST_OK && !c) cx.fail(O_STATUS, "finish_OK_but_incomplete", "of_finish_decoding returned OK but of_is_decoding_complete is false");
@@ -807,7 +863,7 @@ static void* hist_rep_cb(void* ctx, uint32_t size, uint32_t esi) {
 
 // ---------------------------------------------------------------------------------------------
 // run a whole history (all scripts, interleaved as h.inter says, then round-robin)
-struct RunResult { std::vector<std::vector<TraceEnt>> traces; };
+struct RunResult { std::vector<std::vector<TraceEnt>> traces; std::vector<int> last_null; std::vector<char> cfg_ok; };
 
 inline RunResult run_history(const History& h, Ctx& cx, const std::map<int, std::shared_ptr<CodeRef>>* injected = nullptr) {
   RunResult rr;
@@ -838,7 +894,7 @@ inline RunResult run_history(const History& h, Ctx& cx, const std::map<int, std:
   }
   if (alive_other_steps >= 2) cx.features |= F_MULTI;
   while (!cx.stop && remaining) for (size_t i = 0; i < ns && !cx.stop; i++) advance(i);
-  for (size_t i = 0; i < ns; i++) rr.traces.push_back(ss[i]->trace);
+  for (size_t i = 0; i < ns; i++) { rr.traces.push_back(ss[i]->trace); rr.last_null.push_back(ss[i]->last_null); rr.cfg_ok.push_back(ss[i]->cfg_ok); }
   ss.clear();  // destructors release whatever is left
 #ifndef VERIF_NOSAN
   if (at::live) at::hard_reset(); else at::reset_if_empty();
